@@ -51,6 +51,42 @@ CHECKS = {
     },
 }
 
+EST_NOTE = (
+    "Trusted: TLC 1.8.0; the simulated network and its independent CONNECT / SOCKS5 / HTTP parsers (harness/simnet.py, peers.py); "
+    "the abstraction of recorded operations into the specification's alphabet (harness/establish.py). Hosts, secrets, headers and "
+    "timeout values are distinct markers, so every argument identifies its source. One request per pool; sync and async twins."
+)
+CHECKS.update({
+    "C10": {
+        "category": "model_checking",
+        "text": "TLC proves Routing / TlsIffSecure / SniAlpn / ProtoChoice on Establish.tla over the whole case matrix (scheme x proxy mode x http1/http2 x ALPN outcome x sni_hostname x ...); for every case and every single-fault script the real pool is run on the simulated network and TLC replays the recorded operation log in lock step: each connect / TLS / negotiation / request operation must be exactly the one the specification performs next (endpoint, server name, ALPN offer, stream the request is written to).",
+        "design_ref": "DESIGN.md 4.3, 5 (C10)",
+        "technique": "TLA+ model checking (TLC) + lock-step trace validation of operation logs",
+        "note": EST_NOTE,
+    },
+    "C11": {
+        "category": "model_checking",
+        "text": "TLC proves the proxy-hop clauses (CONNECT first and only its 2xx opens the tunnel, refusal stops, secrets only on the proxy hop, caller data never in CONNECT, SOCKS names the origin and offers the configured method, forwarding uses absolute-form with proxy headers merged beneath the caller's) on Establish.tla; the real proxies are run for every case x reply script with marker strings planted in credentials, proxy headers, caller headers and body, and TLC replays the logs.",
+        "design_ref": "DESIGN.md 4.3, 5 (C11)",
+        "technique": "TLA+ model checking (TLC) + lock-step trace validation with taint markers",
+        "note": EST_NOTE,
+    },
+    "C16": {
+        "category": "model_checking",
+        "text": "Operation timeouts: TLC proves TimeoutTag on Establish.tla and replays the operation logs of every connection type with four distinct timeout values (and with none). Pool timeout: TLC proves PoolTimeoutExact on Pool.tla (deadline before / at / after a release, zero timeout) and validates executions of the real pool on the virtual clock, including the clock jumping to the deadline between any two scheduling quanta.",
+        "design_ref": "DESIGN.md 4.1, 4.3, 5 (C16)",
+        "technique": "TLA+ model checking (TLC) + trace validation (operation logs and pool executions on a virtual clock)",
+        "note": EST_NOTE + " " + POOL_NOTE,
+    },
+    "C20": {
+        "category": "model_checking",
+        "text": "TLC proves RetryBound / RetryOnlyConnect / BackoffSequence / LastErrorRaised / NoRetryAfterEstablished on Establish.tla for N in 0..4; the real direct connection (TCP and TLS stage, sync and async) is run for EVERY outcome sequence of length <= N+2 over {ok, ConnectError, ConnectTimeout, other} and for failures after establishment, and TLC replays each log (connect / start_tls / sleep(d) operations) in lock step.",
+        "design_ref": "DESIGN.md 4.3, 5 (C20)",
+        "technique": "TLA+ model checking (TLC) + exhaustive lock-step trace validation",
+        "note": EST_NOTE,
+    },
+})
+
 NOT_YET = {
     "C01": "not claimed yet: Pool/H2Conn trace clauses for response ownership are under construction",
     "C02": "not claimed yet: Framing module under construction",
